@@ -2,10 +2,12 @@ package world
 
 import (
 	"crypto/x509"
+	"encoding/hex"
 	"fmt"
 	"math/big"
 	"net/http"
 	"net/http/httptest"
+	"strings"
 	"sync"
 	"time"
 
@@ -21,7 +23,7 @@ type OCSPAnswer struct {
 	// Kind: good | revoked | unknown | http500 | garbage | html | empty |
 	//       trylater | unauthorized | internal | malformed | sigrequired
 	Kind string `json:"kind"`
-	// Signer: issuer (default) | delegated (issuer-signed, EKU OCSPSigning) | delegated-noeku |
+	// Signer: issuer (default) | delegated (issuer-signed, EKU OCSPSigning) | delegated-big | mimic | delegated-noeku |
 	//         delegated-clientauth | client (the client certificate itself) | stranger-embedded | stranger | sibling
 	Signer string `json:"signer,omitempty"`
 	// Serial: this (default) | other | both (two single responses: other first, this second is not expressible
@@ -33,19 +35,23 @@ type OCSPAnswer struct {
 
 // OCSPParties are the certificates a responder can sign with.
 type OCSPParties struct {
-	Issuer    *gen.Cert
-	Leaf      *gen.Cert
-	Delegated *gen.Cert // issued by Issuer with EKU OCSPSigning
-	NoEKU     *gen.Cert // issued by Issuer without any EKU
-	ClientEKU *gen.Cert // issued by Issuer with EKU clientAuth
-	Stranger  *gen.Cert // self-signed, unrelated
-	Sibling   *gen.Cert // self-signed CA with the issuer's NAME and another key
+	Issuer       *gen.Cert
+	Leaf         *gen.Cert
+	Delegated    *gen.Cert // issued by Issuer with EKU OCSPSigning
+	NoEKU        *gen.Cert // issued by Issuer without any EKU
+	ClientEKU    *gen.Cert // issued by Issuer with EKU clientAuth
+	DelegatedBig *gen.Cert // issuer-signed, EKU OCSPSigning, RSA-3072 key and a long subject: responses exceed 3 KiB
+	Mimic        *gen.Cert // self-signed stranger that copies the issuer's subject and subject key identifier
+	Stranger     *gen.Cert // self-signed, unrelated
+	Sibling      *gen.Cert // self-signed CA with the issuer's NAME and another key
 }
 
 // NewOCSPParties creates the signer certificates around an issuer and a leaf.
 func NewOCSPParties(name string, issuer, leaf *gen.Cert) *OCSPParties {
 	p := &OCSPParties{Issuer: issuer, Leaf: leaf}
 	p.Delegated = gen.Issue(gen.CertSpec{Key: "p256c", Subject: gen.CN(name + " ocsp responder"), SerialHex: "7001", OCSPSigner: true, KeyUsage: "ds"}, issuer)
+	p.DelegatedBig = gen.Issue(gen.CertSpec{Key: "rsa3072", Subject: gen.NameSpec{{{T: "O", V: "verif"}}, {{T: "OU", V: strings.Repeat("responder unit ", 70)}}, {{T: "CN", V: name + " big ocsp responder"}}}, SerialHex: "7005", OCSPSigner: true, KeyUsage: "ds"}, issuer)
+	p.Mimic = gen.Issue(gen.CertSpec{Key: "p256e", Subject: issuer.Spec.Subject, SerialHex: issuer.Spec.SerialHex, IsCA: true, SKIHex: hex.EncodeToString(issuer.Cert.SubjectKeyId)}, nil)
 	p.NoEKU = gen.Issue(gen.CertSpec{Key: "p256d", Subject: gen.CN(name + " noeku"), SerialHex: "7002", NoEKU: true, KeyUsage: "ds"}, issuer)
 	p.ClientEKU = gen.Issue(gen.CertSpec{Key: "p256d", Subject: gen.CN(name + " other client"), SerialHex: "7003", KeyUsage: "ds"}, issuer)
 	p.Stranger = gen.Issue(gen.CertSpec{Key: "p256e", Subject: gen.CN(name + " stranger"), SerialHex: "7004", IsCA: true}, nil)
@@ -65,7 +71,7 @@ func (a OCSPAnswer) Authentic() bool {
 	if a.Serial != "" && a.Serial != "this" {
 		return false
 	}
-	return a.Signer == "" || a.Signer == "issuer" || a.Signer == "delegated"
+	return a.Signer == "" || a.Signer == "issuer" || a.Signer == "delegated" || a.Signer == "delegated-big"
 }
 
 // Build creates the response bytes for a request about serial.
@@ -120,6 +126,10 @@ func (p *OCSPParties) Build(a OCSPAnswer, serial *big.Int) (body []byte, status 
 		responder = p.Issuer
 	case "delegated":
 		responder, tpl.Certificate = p.Delegated, p.Delegated.Cert
+	case "delegated-big":
+		responder, tpl.Certificate = p.DelegatedBig, p.DelegatedBig.Cert
+	case "mimic":
+		responder, tpl.Certificate = p.Mimic, p.Mimic.Cert
 	case "delegated-noeku":
 		responder, tpl.Certificate = p.NoEKU, p.NoEKU.Cert
 	case "delegated-clientauth":
